@@ -196,6 +196,9 @@ fn stack3(ax: (f64, f64), bx: (f64, f64), cx: (f64, f64)) {
         let (_, s, left) = evs[k];
         let sg = if s == 0 { &a } else if s == 1 { &b } else { &cc };
         script_push(if left { &sg.l } else { &sg.r });
+        // natively (replay) the real heap delivers the events; under Kani `pop` is scripted and the
+        // heap's contents are never looked at
+        q.push(if left { sg.l.clone() } else { sg.r.clone() });
         k += 1;
     }
 
